@@ -105,18 +105,28 @@ fn acceptable(func_code: u8, pick: u8, n: u8) -> Option<Vec<u8>> {
 /// well-formed headers that the function cannot take and must therefore reject
 fn wrong_for_function(func_code: u8, pick: u8) -> Option<Vec<u8>> {
     Some(match func_code {
+        // well-formed, known objects that cannot be read (the parser accepts them, the READ handler cannot serve them)
+        func::READ => match pick % 2 {
+            0 => ra::h_prefixed8(41, 2, &[(0, vec![1, 0, 0])]),
+            _ => ra::h_prefixed8(12, 1, &crob_objs(1)),
+        },
         func::WRITE => match pick % 4 {
             0 => ra::h_range8(1, 2, 0, 0, &[0x01]),
             1 => ra::h_range8(30, 2, 0, 0, &[0x01, 5, 0]),
             2 => ra::h_all(60, 2),
             _ => ra::h_prefixed8(12, 1, &crob_objs(1)),
         },
-        func::SELECT | func::OPERATE | func::DIRECT_OPERATE => match pick % 3 {
+        func::SELECT | func::OPERATE | func::DIRECT_OPERATE | func::DIRECT_OPERATE_NR => match pick % 3 {
             0 => ra::h_range8(1, 2, 0, 0, &[0x01]),
             1 => ra::h_all(60, 1),
             _ => ra::h_count8(50, 1, 1, &ra::u48(5)),
         },
-        func::IMMED_FREEZE | func::FREEZE_CLEAR | func::FREEZE_AT_TIME => match pick % 3 {
+        func::IMMED_FREEZE
+        | func::FREEZE_CLEAR
+        | func::FREEZE_AT_TIME
+        | func::IMMED_FREEZE_NR
+        | func::FREEZE_CLEAR_NR
+        | func::FREEZE_AT_TIME_NR => match pick % 3 {
             0 => ra::h_all(30, 0),
             1 => ra::h_all(1, 0),
             _ => ra::h_all(60, 1),
@@ -645,9 +655,17 @@ async fn run_case(case: &Case) -> CaseOut {
                 }
             }
         }
+        // "well-formed requests whose function code forbids a reply are never answered": well-formed = the flags are
+        // those of a request and every object header parses, whether or not the function can use the objects
+        let well_formed = flags_ok
+            && kinds
+                .iter()
+                .all(|k| matches!(k, HKind::Acceptable | HKind::WrongForFunction));
+        if no_reply_func && well_formed && bad_headers > 0 {
+            ck.out.label("no_reply_function_with_unusable_objects");
+        }
         if no_reply_func
-            && flags_ok
-            && bad_headers == 0
+            && well_formed
             && !(req.func == 0 && !kinds.is_empty())
             && !answers.is_empty()
         {
